@@ -542,11 +542,17 @@ def _flag_role(el, i_par, k):
         j = None
         if neg:
             n = neg[0][0]
-            if not by_index or not (isinstance(n, tuple) and n[0] == "eq" and i_par in (n[1], n[2])):
+            if not (isinstance(n, tuple) and n[0] == "eq" and i_par in (n[1], n[2])):
                 return None, None
             j = n[2] if n[1] == i_par else n[1]
-            if not (isinstance(j, tuple) and j[0] == "elem"):
-                return None, None
+            if by_index:
+                if not (isinstance(j, tuple) and j[0] == "elem"):
+                    return None, None
+            else:
+                # iter().enumerate(): the closure sees (position, element)
+                if not (getattr(el, "enum", False) and j == T("enumidx", it)):
+                    return None, None
+                j = None
         excls.add(bool(neg))
         if not (isinstance(a, tuple) and a[0] == "in" and mir.strip(a[1]) == k and isinstance(a[2], tuple) and a[2][0] == "field" and is_elem(a[2][1], j)):
             return None, None
@@ -589,3 +595,102 @@ def remove_mapping_spec(val):
     if hand is False:
         return "release"
     return None
+
+
+# --------------------------------------------------------------------------
+# "select the first element of a scan that satisfies P, then act on it": written as a loop that tests, acts and
+# breaks, or as  iter().find(|x| P(x))  followed by  if let Some(x) = found { act(x) }
+
+class Selection:
+    def __init__(self):
+        self.form = None          # 'loop' | 'find'
+        self.iter_term = None     # ('iter', xs, dir)
+        self.elem = None          # the term that stands for the visited element in .pred
+        self.chosen = None        # the term handed to the action
+        self.pred = []            # [(atom, value)] known for the chosen element (atoms over .elem)
+        self.leaves_scan = False  # nothing is scanned after the action
+        self.skips_quietly = False  # an element failing P has no effect and the scan goes on
+        self.acts = 0             # number of acting paths
+        self.site = None
+        self.header = None
+        self.problems = []
+
+    def pred_over_chosen(self):
+        return [(mir.subst(a, {self.elem: self.chosen}) if isinstance(a, tuple) else a, v) for a, v in self.pred]
+
+
+def selections(ctx, body, action, arg_index):
+    """all places in `body` where `action` is called on an element selected from a scan; arg_index = position of the
+    element among the action's arguments"""
+    from . import tables
+    out = []
+    # (1) loops
+    for h in sorted(body.loops()):
+        paths = mir.walk_loop_only(body, h)
+        acting = [p for p in paths if any(e.kind == "call" and e.a == action for e in p.events)]
+        if not acting:
+            continue
+        el = tables.exists_loop(body, h)
+        s = Selection()
+        s.form, s.header = "loop", h
+        s.iter_term = el.iter_term
+        s.acts = len(acting)
+        ok_leave = True
+        for p in acting:
+            calls = [e for e in p.events if e.kind == "call" and e.a == action]
+            if len(calls) != 1:
+                s.problems.append("%d calls of the action on one path" % len(calls))
+                continue
+            ci = p.events.index(calls[0])
+            s.site = calls[0].span
+            s.chosen = mir.strip(calls[0].b[arg_index])
+            s.elem = s.chosen
+            s.pred = [(e.a, e.b) for e in p.events[:ci] if e.kind == "guard" and not (isinstance(e.a, tuple) and e.a[0] == "variantof" and isinstance(e.a[1], tuple) and e.a[1][0] == "next")]
+            if p.outcome == ("backedge", h):
+                ok_leave = False
+        s.leaves_scan = ok_leave
+        quiet = True
+        for p in paths:
+            if p in acting or p.outcome != ("backedge", h):
+                continue
+            if [e for e in p.events if e.kind in ("store",) or (e.kind == "call" and e.d)]:
+                # a call that receives `&mut` on a continuing path (other than stepping the iterator)
+                if [e for e in p.events if e.kind == "call" and e.d and mir.method_name(e.a) not in ("next", "next_back")] or [e for e in p.events if e.kind == "store"]:
+                    quiet = False
+        s.skips_quietly = quiet
+        out.append(s)
+    # (2) find(): the action is called with the payload of a find() result
+    for p in mir.walk_function(body):
+        for e in p.events:
+            if e.kind != "call" or e.a != action:
+                continue
+            arg = mir.strip(e.b[arg_index])
+            if not (isinstance(arg, tuple) and arg[0] == "field" and isinstance(arg[1], tuple) and arg[1][0] == "variant" and arg[1][2] == "Some"):
+                continue
+            c = arg[1][1]
+            if not (isinstance(c, tuple) and c[0] == "call" and mir.method_name(c[1]) == "find"):
+                continue
+            if any(x.form == "find" and x.chosen == arg for x in out):
+                for x in out:
+                    if x.form == "find" and x.chosen == arg:
+                        x.acts += 0
+                continue
+            sc = tables.closure_scan(ctx.body, c)
+            s = Selection()
+            s.form = "find"
+            s.site = e.span
+            s.chosen = arg
+            s.iter_term = sc.iter_term
+            s.elem = T("elem", sc.iter_term, None) if sc.iter_term else None
+            if sc.problems or len(sc.set_paths) != 1:
+                s.problems.append("find() predicate: %s" % (sc.problems[:1] or ["%d accepting paths" % len(sc.set_paths)]))
+            else:
+                s.pred = list(sc.set_paths[0])
+            found = [g for g in p.events[:p.events.index(e)] if g.kind == "guard" and g.a == T("variantof", c) and g.b == "Some"]
+            if not found:
+                s.problems.append("the action is not under `found is Some`")
+            s.leaves_scan = True
+            s.skips_quietly = True
+            s.acts = 1
+            out.append(s)
+    return out
